@@ -30,6 +30,7 @@ def dispatch (line : String) : String :=
   | "proctrace" :: args => Driver.ProcD.handle args
   | "shell" :: args => Driver.ProcD.handleShell args
   | "toolresult" :: args => Driver.ProcD.handleToolResult args
+  | "shellvisit" :: args => Driver.ProcD.handleShellVisit args
   | ["posbefore", l1, c1, l2, c2] =>
     match l1.toNat?, c1.toNat?, l2.toNat?, c2.toNat? with
     | some a, some b, some c, some d => if AL.SrcPos.isBefore ⟨a, b⟩ ⟨c, d⟩ then "1" else "0"
